@@ -201,6 +201,12 @@ def streams(ctx, scale=1):
         lines.append("ep2_param %d" % cid)      # installs the twist (and with it the pairing generators)
         lines.append("ep_param %d" % cid)
         lines += rel_lines(ctx.rng, ["gt_exp_sec", "ep2_lwreg", "g2_mul_sec", "g1_mul_sec"], 256, per // 2)
+        # rare value-dependent paths (one scalar in a thousand): thousands of pseudo-random scalars of one length against the first log
+        nscan = 1500 if ctx.tier == "quick" else 20000
+        for f in ("g2_mul_sec", "gt_exp_sec", "g1_mul_sec"):
+            for bits in (256, 255, 254):
+                lines.append("ct_scan %s %x %d %x %d" % (f, 1 + ctx.rng.below(1000), nscan if f != "gt_exp_sec" else nscan // 3,
+                                                        ctx.rng.bits(63) | 1, bits))
     res.append({"name": "ct-base", "cfg": "base", "exe": exe, "lines": lines})
     # Edwards ladder and regular recoding (255-bit configuration)
     exe2 = _exe(ctx, "p255")
